@@ -12,11 +12,13 @@ import (
 
 const verifIdent = "ab_.-" // letters and the punctuation that may continue a name
 
+var verifIndents = []string{"", " ", "\t", "  ", "\t "} // the grammar admits blanks and tabs
+
 func verifDeclLines(kw string, nameLen int, tails []string) (names []string, lines []string) {
 	cnt := 1 + zzverif.Choose("decls", zzverif.Param("D", 3))
 	for i := 0; i < cnt; i++ {
 		nm := zzverif.Str("name", 1, nameLen, verifIdent)
-		indent := strings.Repeat(" ", zzverif.Choose("indent", 3))
+		indent := verifIndents[zzverif.Choose("indent", len(verifIndents))]
 		tail := tails[zzverif.Choose("tail", len(tails))]
 		names = append(names, nm)
 		lines = append(lines, indent+kw+" "+nm+tail)
